@@ -1,6 +1,7 @@
 import ElvModel.Go.Driver
 import ElvModel.C19.Model
 import ElvModel.C19.Interp
+import ElvModel.C19.Signal
 import ElvModel.C20.Driver
 /-
 Line protocol of C19.
@@ -134,7 +135,38 @@ def seqLine (ts prog : String) : String :=
     s!"res={rs} steps={st.steps}"
   | _, _ => "bad-op"
 
+/-! `sig <procs> <script>` → `alive res=<id>:<ok|int>,… sess=<n>` | `unhandled@k:<tok>` | `bad-script@k:<tok>` |
+`KILLED@k:<tok>` (the signal model, Signal.lean, with the cleanup of the code: `signal.Stop(sigCh)`) -/
+
+def parseSigTok (t : String) : Option Sig.Tok :=
+  if t = "S" then some .sess
+  else if t = "U" then some .unsess
+  else if t = "I" then some (.sig .int)
+  else if t = "Q" then some (.sig .quit)
+  else if t.startsWith "Z" then (t.drop 1).toString.toNat?.map (fun _ => .delay)
+  else if t.startsWith "F" then (t.drop 1).toString.toNat?.map .fin
+  else if t.startsWith "W" then (t.drop 1).toString.toNat?.map .wait
+  else if t.startsWith "B" then
+    match (t.drop 1).toString.splitOn ":" with
+    | [a, prog] => if prog.isEmpty then none else a.toNat?.map (fun i => .begin i (prog.startsWith "g"))
+    | _ => none
+  else none
+
+def sigLineWith (c : Sig.Cleanup) (script : String) : String :=
+  let toks := C20.tokens script
+  match C20.parseAll parseSigTok toks with
+  | none => "bad-op"
+  | some ts =>
+    match Sig.runToks c {} 0 ts with
+    | .inr (k, .unhandled) => s!"unhandled@{k}:{C20.tokAt toks k}"
+    | .inr (k, .bad) => s!"bad-script@{k}:{C20.tokAt toks k}"
+    | .inr (k, .killed) => s!"KILLED@{k}:{C20.tokAt toks k}"
+    | .inl x =>
+      let rs := x.res.map (fun (i, b) => s!"{i}:{if b then "int" else "ok"}")
+      s!"alive res={C20.joinWith "," rs} sess={x.st.sessSeen}"
+
 def stepLine : List String → String
+  | ["sig", _procs, script] => sigLineWith .stopOwn script
   | ["int", _prog, _mode, _sched, tr] => intLine tr
   | ["seq", t, prog] => seqLine t prog
   | _ => "bad-op"
